@@ -65,6 +65,26 @@ def provenances(P0, n):
     hd = P0[act].hilbert_distance(total_bounds=P0[act].total_bounds, p=10)
     Ps = P0.iloc[np.argsort(hd.values, kind="stable")]
     yield "sorted_input(2)", dd.from_pandas(Ps, npartitions=2, sort=False)
+    # active geometry switched on the Dask frame
+    other = "g2" if act == "g1" else "g1"
+    yield "dask_set_geometry(2)", dd.from_pandas(P0.set_geometry(other), npartitions=min(2, n)).set_geometry(act)
+    # rows that define a larger extent are filtered away AFTER the partition bounds were cached
+    import pandas as pd
+    from spatialpandas import GeoDataFrame
+    ext = P0.iloc[:2].copy()
+    ext["val"] = [9990, 9991]
+    ext.index = pd.Index([990, 991], name="idx")
+    far = {"g1": L.make_array("point", [(-20, -20), (30, 40)], "float64")}
+    kind2 = P0["g2"].dtype.name.split("[")[0]
+    far_el = {"polygon": [(sq(-20, -20, -19, -19),), (sq(30, 40, 31, 41),)], "line": [((-20, -20), (-19, -19)), ((30, 40), (31, 41))],
+              "multipoint": [((-20, -20),), ((30, 40),)]}[kind2]
+    far["g2"] = L.make_array(kind2, far_el, "float64")
+    ext["g1"], ext["g2"] = far["g1"], far["g2"]
+    big = GeoDataFrame(pd.concat([P0, ext]), geometry=act)
+    dbig = dd.from_pandas(big, npartitions=min(3, n))
+    dbig.partition_sindex
+    _ = dbig.geometry.total_bounds
+    yield "cached_bounds_then_filter", dbig[dbig["val"] < 9000]
     # an input partition emptied by a filter, re-filled by concatenating the complement
     if n >= 3:
         d3 = dd.from_pandas(P0, npartitions=3)
